@@ -104,6 +104,13 @@ def _extra():
                                    ("generated-16bit", 30000, 40, {"s16", "w16", "arr", "loops"}), ("generated-all", 40000, 60, {"arr", "arr2", "w16", "loops", "s16", "idxexpr", "call", "tern", "sw"})):
         for decl, body, sim, note in simgen.programs(seed0, n, feats):
             add(gname, decl, body, sim, note)
+    # what the optimizer may drop: a reload of X / Y also sets N and Z; a protected branch of an inlined body stays protected
+    for i, j in ((0, 5), (3, 0), (0, 0)):
+        add("opt-reload-flags", "unsigned char i, j, k;", "k = 0; X = i; Y = j; X = i; if (X) k = 1;", {"init": {"i": i, "j": j}, "expect": {"k": int(i != 0)}}, "i=%d j=%d" % (i, j))
+        add("opt-reload-flags", "unsigned char i, j, k;", "k = 0; Y = i; X = j; Y = i; if (Y) k = 1;", {"init": {"i": i, "j": j}, "expect": {"k": int(i != 0)}}, "i=%d j=%d (Y)" % (i, j))
+    for kw in ("inline ", ""):
+        add("opt-inlined-protected-branch", "unsigned char i, c; %svoid f() { for (X = 0; X <= 10; X++) i++; }" % kw, "c = 200; c += 100; i = 0; f();", {"expect": {"i": 11}}, "carry set before the %scall" % kw)
+        add("opt-inlined-protected-branch", "unsigned char i, c; %svoid f() { for (X = 0; X <= 10; X++) i++; }" % kw, "c = 1; c += 1; i = 0; f();", {"expect": {"i": 11}}, "carry clear before the %scall" % kw)
     # loops: for / while / do-while agree
     for n in (0, 1, 5, 200):
         tot = sum(range(n)) & 255
@@ -222,7 +229,7 @@ def _group_of(src):
 
 def corpus(tier):
     """[(group name, properties, [programs])]: every program at -O0 (C01, C15) and at -O1 (C02)."""
-    from . import u_condex, u_cond16, u_arithm, u_assign, u_shift, u_condval, u_gencond, u_if, u_loops, u_condtail, u_switch, u_callonce, u_sign, u_subscript, u_callframe, u_assignarm, u_compoundarm
+    from . import u_condex, u_cond16, u_arithm, u_assign, u_shift, u_condval, u_gencond, u_if, u_loops, u_condtail, u_switch, u_callonce, u_sign, u_subscript, u_callframe, u_assignarm, u_compoundarm, u_stmt
     groups = {}
     for mod in (u_condex, u_cond16, u_arithm, u_shift):
         for c in mod.candidates(None):
@@ -231,7 +238,7 @@ def corpus(tier):
         groups.setdefault("logical-conditions", []).append(c)
     for c in u_condval.candidates(None):
         groups.setdefault("cond-value", []).append(c)
-    for mod, gname in ((u_if, "if-forms"), (u_loops, "loop-contract-candidates"), (u_condtail, "cond-tail"), (u_switch, "switch-forms"), (u_callonce, "call-in-16bit-context"), (u_sign, "declared-signedness"), (u_subscript, "element-access"), (u_callframe, "call-frame"), (u_assignarm, "assign-16bit-element"), (u_compoundarm, "compound-16bit-destination")):
+    for mod, gname in ((u_if, "if-forms"), (u_loops, "loop-contract-candidates"), (u_condtail, "cond-tail"), (u_switch, "switch-forms"), (u_callonce, "call-in-16bit-context"), (u_sign, "declared-signedness"), (u_subscript, "element-access"), (u_callframe, "call-frame"), (u_assignarm, "assign-16bit-element"), (u_compoundarm, "compound-16bit-destination"), (u_stmt, "function-entry")):
         for c in mod.candidates(None):
             if c.get("simulate") and not c.get("contract_only"):
                 groups.setdefault(gname, []).append(c)
